@@ -178,7 +178,7 @@ def _work(ctx: Ctx, item):
 def run(ctx: Ctx):
     db = canboat.db()
     keys = [d.key for d in db.defs if d.supported]
-    n = 5 if ctx.quick else 200
+    n = 5 if ctx.quick else 400
     # definitions with primary keys first, spread over shards
     keys.sort(key=lambda k: -sum(f.pk for f in db.by_key[k].fields))
     shards = [keys[i::16] for i in range(16)]
